@@ -78,11 +78,29 @@ def _reader(st, ids, sh, ri, start, stop, max_reads, seed):
             pass
 
 
-def _late_user(st, sh, go, conn, t3):
+def _late_user(st, sh, go, conn, t3, early=None, universe=()):
     """Forked before anything is stored, idle until the parent has flushed and stored again: then it looks at the storage
     and stores one more text (a long-lived worker that is used again in the next round)."""
     instr.reset_for_child("workerL")
     try:
+        if early is not None:
+            # first use, at the end of the first round (everything is stored, nothing flushed yet): it reads everything and closes,
+            # as the documentation asks every process to do before a flush
+            if not early.wait(120):
+                conn.send({"error": "never released (first round)"})
+                return
+
+            def safe0(fn):
+                try:
+                    return ["ok", fn()]
+                except Exception as e:
+                    return ["exc", f"{type(e).__name__}: {e}"]
+            v0 = {"iter": safe0(lambda: list(st)), "reads": {str(g): safe0(lambda: st[g]) for g in universe}}
+            try:
+                st.close()
+            except Exception:
+                pass
+            conn.send(v0)
         if not go.wait(60):
             conn.send({"error": "never released"})
             return
@@ -139,10 +157,11 @@ def drive_storage(case, sh, state):
         go_late = ctx.Event()
         a, b = ctx.Pipe(duplex=False)
         t3 = text_for(case, 97, 1, 0)
-        lp = ctx.Process(target=_late_user, args=(st, sh, go_late, b, t3))
+        go_early = ctx.Event() if case.get("late_user_reads_first") else None
+        lp = ctx.Process(target=_late_user, args=(st, sh, go_late, b, t3, go_early, universe))
         lp.start()
         b.close()
-        late = (lp, a, go_late, t3)
+        late = (lp, a, go_late, t3, go_early)
     for g in case.get("parent_stores_first", []):
         # the parent is a writer itself and has stored before it forks: the forked writers inherit its open file and its
         # writer identity (they all append to one file from then on)
@@ -239,6 +258,9 @@ def drive_storage(case, sh, state):
     final["reads"] = {str(g): safe(lambda: st[g]) for g in universe}
     final["reads_again"] = {str(g): safe(lambda: st[g]) for g in universe}
     final["files_before_flush"] = sorted(os.listdir(d))
+    if late and late[4] is not None:
+        late[4].set()
+        final["late_user_first_view"] = late[1].recv() if late[1].poll(120) else {"error": "no report"}
     if case.get("parent_writes_late"):
         g = max(universe) + 2
         t = text_for(case, 99, g, 0)
@@ -272,7 +294,7 @@ def drive_storage(case, sh, state):
     st.close()
     if late:
         state["phase"] = "late_user"
-        lp, a, go_late, t3 = late
+        lp, a, go_late, t3, _ = late
         go_late.set()
         final["late_user_view"] = a.recv() if a.poll(60) else {"error": "no report"}
         lp.join(30)
@@ -440,6 +462,13 @@ def storage_findings(case, result):
                     fin.get("len_after_restore") != ["ok", 1] or fin.get("contiguous_after_restore") != ["ok", True]:
                 out.append(("store-after-flush-fails", f"after flush() + store of id 0: read {fin['read_back_after_flush'][0]}"
                             f", len {fin.get('len_after_restore')}, contiguous {fin.get('contiguous_after_restore')}"))
+        if "late_user_first_view" in fin:
+            v0 = fin["late_user_first_view"]
+            want0 = {"iter": fin.get("iter"), "reads": fin.get("reads")}
+            if v0 != want0 and fin.get("iter", ["?"])[0] == "ok":
+                diff = {k: v0.get(k) for k in want0 if v0.get(k) != want0[k]} if "error" not in v0 else v0
+                out.append(("views-differ", f"a process forked before the first round and used for the first time when everything was stored: "
+                            f"its view {_short(diff)} differs from the parent's at the same (quiescent) moment {_short({k: want0[k] for k in diff})}"))
         if "late_user_view" in fin and fin.get("store_after_flush", ["?"])[0] == "ok" and fin.get("flush", ["?"])[0] == "ok":
             t2, t3 = fin["late_user_text"]
             v = fin["late_user_view"]
